@@ -6,6 +6,7 @@ import textwrap
 from typing import List
 
 sys.path.insert(0, os.path.dirname(os.path.dirname(os.path.dirname(os.path.abspath(__file__)))))
+import fxv.env  # noqa: E402,F401  (must precede any furax import: selects FURAX_SRC)
 import furax._base.rules as R  # noqa: E402
 from fxv.ch import c07_model as M  # noqa: E402
 from fxv.ch.c07_model import NK, NS, compatible  # noqa: E402
